@@ -136,7 +136,7 @@ fn jtoken(t: &Token) -> String {
             format!("\"k\":\"StrLiteral\",\"s\":{}", jbytes(s.as_bytes())),
         Token::InterpStrLiteral(s, slots) => {
             let sl: Vec<String> =
-                slots.iter().map(|(a, b)| format!("[{a},{b}]")).collect();
+                slots.iter().map(|(a, b, _)| format!("[{a},{b}]")).collect();
             format!(
                 "\"k\":\"InterpStrLiteral\",\"s\":{},\"slots\":[{}]",
                 jbytes(s.as_bytes()),
@@ -387,7 +387,7 @@ pub fn jexpr(e: &Expr) -> String {
 // lexer recorded. The boundaries are offsets in *characters* of the decoded
 // literal (that is how the lexer counts them), so the split is done on
 // characters here. Each slot's text is parsed with the expression parser.
-fn jinterp_parts(s: &str, slots: &[(usize, usize)]) -> String {
+fn jinterp_parts(s: &str, slots: &[crate::lexer::InterpSlot]) -> String {
     let chars: Vec<char> = s.chars().collect();
     let mut parts: Vec<String> = vec![];
     let mut last = 0;
@@ -398,7 +398,7 @@ fn jinterp_parts(s: &str, slots: &[(usize, usize)]) -> String {
             None
         }
     };
-    for (start, end) in slots {
+    for (start, end, sloc) in slots {
         match text(last, *start) {
             Some(t) => parts.push(format!(
                 "{{\"t\":\"lit\",\"s\":{}}}", jbytes(t.as_bytes()),
@@ -412,8 +412,8 @@ fn jinterp_parts(s: &str, slots: &[(usize, usize)]) -> String {
                 let mut lexer = Lexer::new(&t);
                 match ExprParser::new().parse(&mut lexer) {
                     Ok(ast) => parts.push(format!(
-                        "{{\"t\":\"slot\",\"off\":{},\"e\":{}}}",
-                        start, jexpr(&ast),
+                        "{{\"t\":\"slot\",\"off\":{},\"sloc\":[{},{}],\"e\":{}}}",
+                        start, sloc.0, sloc.1, jexpr(&ast),
                     )),
                     Err(_) => parts.push(format!(
                         "{{\"t\":\"badslot\",\"off\":{start}}}",
